@@ -63,6 +63,8 @@ def main(chk):
         calls.append({'id': 'c:%s.run' % c['id'], 'api': 'run', 'case': c})
     calls += error_calls()
     units = k2.pmap('harness.apicalls:observe', calls)
+    chk.add('skipped_pysdmx_input', len([u for u in units if 'skip' in u]))
+    units = [u for u in units if 'skip' not in u]
     for u in units:
         if 'machinery' in u:
             raise RuntimeError(u['machinery'])
